@@ -143,6 +143,11 @@ Conservation == \A m \in Started : load[m] = SumProcs(Outstanding(m))
 NeedAccounting == need = SumProcs(q) + SumProcs({r \in Reqs : granted[r] # 0 /\ r \notin finished})
 ExclusiveAlone == \A m \in Started : \A r \in Outstanding(m) : Procs[r] = MachProcs => Outstanding(m) = {r}
 PendingOK == pending >= 0
+\* pending counts exactly the procs of the machines of the batches that have not yet returned, whether
+\* their machines come up or not (a machine that fails to boot must not stay counted: seeded change C02-1)
+RECURSIVE SumBatches(_)
+SumBatches(bs) == IF bs = <<>> THEN 0 ELSE Head(bs) + SumBatches(Tail(bs))
+PendingIsOutstanding == pending = MachProcs * SumBatches(batches)
 NoOverstart == stops = 0 => Cardinality(Managed) * MachProcs + pending < peak + MachProcs
 \* machines on probation or lost receive no new work (Grant only draws from Ok)
 HealthyOnly == [][\A r \in Reqs : (granted[r] = 0 /\ granted'[r] # 0) => health[granted'[r]] = "ok"]_vars
